@@ -291,6 +291,14 @@ pub fn next_outcome() -> Outcome {
 }
 
 
+/// Whether `Engine::sanitize` is to fail (environment variable
+/// `VERIF_SANITIZE_FAIL`): the clean-up before a retried run cannot be
+/// made to fail from outside otherwise.
+pub fn sanitize_fails() -> bool {
+    std::env::var_os("VERIF_SANITIZE_FAIL").is_some()
+}
+
+
 //------------ RTR connection setup failures ---------------------------------
 
 static RTR_FAIL: Mutex<Option<HashSet<usize>>> = Mutex::new(None);
